@@ -496,8 +496,15 @@ class World:
 
         def change(fsm, state):
             old = fsm.state
-            self.fsm_log.append((round(self.clock.now - EPOCH, 3), id(fsm.peer), old, state))
-            self.event('fsm', FSM.STATE(old).name if hasattr(FSM, 'STATE') else old, state)
+            owned = None
+            try:
+                pr = fsm.peer.proto
+                if pr and pr.connection and pr.connection.io is not None:
+                    owned = pr.connection.io.index
+            except Exception:
+                pass
+            self.fsm_log.append((round(self.clock.now - EPOCH, 3), owned, old.name, state.name))
+            self.event('fsm', old.name, state.name, owned)
             return orig_change(fsm, state)
 
         self._patch(FSM, 'change', change)
